@@ -30,6 +30,11 @@ fn gen(t: Tier, _seed: u64, emit: &mut dyn FnMut(Case)) {
                 emit(Case::Construct { cid, sid, k });
             }
         }
+        for n in long_lengths(bits).into_iter().chain(huge_lengths(bits).into_iter().filter(|n| *n <= 17000).step_by(3)) {
+            for k in [1usize, spw.max(2) - 1, spw] {
+                emit(Case::Iterate { cid, k, n, s: n % 2 });
+            }
+        }
         for k in k_set(cid, Sid::Usize, t.thorough()) {
             let mut ns = vec![0, k - 1, k, k + 1, k + 2, k + spw + 1, 2 * k + 1];
             ns.sort();
